@@ -4689,3 +4689,196 @@ def restore_commit_rules(ctx):
             ctx.violate('must-pass|%s|restore-keeps-freed-records|%s' % (f.path, bad[0].desc), 'a transaction that restored a savepoint can reach %s without discarding the in-memory freed records of the rolled-back commits: their pages are live again and would be freed by a later commit' % bad[0].desc, f, bad[0].line)
     for p in dr:
         ctx.flows(f, p, 1, from_arg='self', what='the horizon is the restored transaction id')
+
+
+def untracked_allocation_rules(ctx):
+    """`PageTracker::ignore()` takes an allocation or a release out of the per-transaction record that
+    savepoint restore and abort rely on.  Only bookkeeping that is outside the data tree by construction may
+    use it: the system tree, compaction targets, the post-commit release of already recorded pages, rollback."""
+    ctx.set_rule('C05.R9', 'only the confirmed bookkeeping paths bypass the per-transaction allocation record (PageTracker::ignore)')
+    ctx.callers_eq('PageTracker::ignore', {
+        'SystemNamespace::new', 'SystemTable::new', WT + '::compact_pages', WT + '::durable_commit', WT + '::non_durable_commit',
+        WT + '::process_data_freed_pages_after_commit', WT + '::process_freed_pages', WT + '::process_freed_pages_nondurable',
+        WT + '::process_freed_pages_nondurable_helper', WT + '::restore_savepoint_inner', 'UntypedBtreeMut::relocate_helper',
+        'multimap_btree::relocate_subtrees', PA + '::rollback_all'})
+    # the data-tree mutators hand their own tracker to every allocation
+    n = 0
+    for pat in ('BtreeMut::get_mut', 'BtreeMut::get_mut_helper', 'AccessGuardMut::insert'):
+        f = ctx.fn(pat)
+        if f is None:
+            continue
+        s_ = core.sym(f)
+        for c in f.calls_to(PA + '::allocate'):
+            n += 1
+            d = s_.describe(s_.operand(c.t['a'][2]))
+            ok_ = 'allocated' in d
+            ctx._ob(ok_, ctx.sample('arg-flow', f, c.line, 'copy-on-write allocation recorded in the transaction tracker (%s)' % d))
+            if not ok_:
+                ctx.violate('arg-flow|%s|untracked-allocation' % f.path, 'a copy-on-write allocation in the data tree is not recorded in the transaction\'s allocation tracker (tracker argument: %s)' % d, f, c.line)
+    ctx.check(n >= 2, 'floor|cow-allocations', 'copy-on-write allocations of get_mut analysed: %d' % n)
+
+
+def relocate_tree_rules(ctx):
+    ctx.set_rule('C13.R6', 'whether a table moved is decided by comparing its root after relocation with the root read before any relocation step')
+    f = ctx.fn('InternalTableDefinition::relocate_tree')
+    if f is None:
+        return
+    pg = ctx.sites(f, 'InternalTableDefinition::private_get_root', exact=1)
+    rs = ctx.sites(f, 'multimap_btree::relocate_subtrees', exact=1)
+    rl = ctx.sites(f, 'UntypedBtreeMut::relocate', exact=1)
+    sh = ctx.sites(f, 'InternalTableDefinition::set_header', exact=1)
+    ctx.order(f, pg, rs, 'the original root is read before the multimap subtrees (and with them the top-level root) are relocated')
+    ctx.order(f, pg, rl, 'the original root is read before the tree is relocated')
+    ctx.guarded_cmp(f, sh, [Guard(call='InternalTableDefinition::private_get_root', cmp=True)], 'the new header is adopted on a comparison with the original root')
+    ctx.must_pass(f, rl, exits='success', what='every table is run through UntypedBtreeMut::relocate')
+    for p in sh:
+        ctx.flows(f, p, 1, from_call='UntypedBtreeMut::get_root', what='the adopted root is the relocated tree\'s root')
+        ctx.flows(f, p, 2, from_call='InternalTableDefinition::get_length', what='the adopted length is the definition\'s own')
+    for p in rl:
+        pass
+    # the tree that is relocated starts from the root the multimap step produced
+    nw = ctx.sites(f, 'UntypedBtreeMut::new', exact=1)
+    for p in nw:
+        ctx.flows(f, p, 0, from_call='multimap_btree::relocate_subtrees', what='for a multimap table the tree is rebuilt from the root relocate_subtrees returned')
+
+
+def after_bound_rules(ctx):
+    """`..._after(t)` means strictly after t: the record of t itself belongs to the state that is kept."""
+    ctx.set_rule('C06.R6', '')
+    f = ctx.fn('UnpersistedState::allocations_after')
+    if f is not None:
+        rg = ctx.sites(f, 'BTreeMap::range', exact=1)
+        for p in rg:
+            ctx.flows(f, p, 1, from_call='TransactionId::next', what='allocations "after t" start at t.next(): t\'s own pages belong to the state being restored')
+        # the range value is built from next() directly: RangeFrom { start: next() }
+        s_ = core.sym(f)
+        ok_ = False
+        for b in f.blocks:
+            for st in b['s']:
+                if st[0] == 'a' and st[2]['k'] == 'agg' and str(st[2].get('a', '')).endswith('ops::RangeFrom'):
+                    t = s_.operand(st[2]['o'][0])
+                    if t[0] == 'call' and core.CallSite(f, t[1], f.blocks[t[1]]['t']).matches('TransactionId::next'):
+                        ok_ = True
+        ctx.check(ok_, 'arg-flow|%s|range-from-next' % f.path, 'the scan of unpersisted allocations starts at transaction_id.next()', f, f.line)
+    f = ctx.fn('UnpersistedState::drop_data_freed_after')
+    if f is not None:
+        so = ctx.sites(f, 'BTreeMap::split_off', exact=1)
+        for p in so:
+            ctx.flows(f, p, 1, from_call='TransactionId::next', what='freed records "after t" are split off at t.next()')
+
+
+def create_only_when_empty_rules(ctx):
+    ctx.set_rule('C12.R7', 'a storage is initialised as a new database only when it is empty (length 0): existing bytes are never overwritten by a creating open')
+    f = ctx.fn(TM + '::new')
+    if f is None:
+        return
+    s_ = core.sym(f)
+    init = ctx.sites(f, 'DatabaseHeader::new', exact=1)
+    empty_edges = set()
+    tests = 0
+    for bb in range(f.nb):
+        t = f.blocks[bb]['t']
+        if t['k'] != 'sw' or f.blocks[bb]['c']:
+            continue
+        term = s_.operand(t['o'])
+        if term[0] == 'cmp' and term[1] in ('Gt', 'Ne', 'Eq') and term[3][0] == 'const' and str(term[3][2]) == '0':
+            lhs = term[2]
+            d = s_.describe(lhs)
+            base = lhs[1] if lhs[0] == 'place' else lhs
+            from_len = False
+            if base[0] == 'call':
+                cs0 = core.CallSite(f, base[1], f.blocks[base[1]]['t'])
+                from_len = cs0.matches(PCF + '::raw_file_len') or (cs0.t['a'] and core.flows_from_call(f, cs0.t['a'][0], PCF + '::raw_file_len'))
+            if from_len or 'raw_file_len' in d or 'initial_storage_len' in d:
+                tests += 1
+                for si, (tgt, lab) in enumerate(f.succ(bb)):
+                    is_zero_label = (lab == '0')
+                    # Gt / Ne are false (label 0) when the length is 0; Eq is true (otherwise) when it is 0
+                    if (term[1] in ('Gt', 'Ne') and is_zero_label) or (term[1] == 'Eq' and not is_zero_label):
+                        empty_edges.add((bb, si))
+    ctx.check(tests >= 1 and bool(empty_edges), 'guard-missing|%s|len-zero' % f.path, 'TransactionalMemory::new tests the storage length against 0', f, f.line)
+    # the two comparisons of the magic number read from the file: C1 on the non-empty arm (mismatch = error), C2 decides initialisation
+    cmpc = []
+    for c in f.calls:
+        if f.blocks[c.bb]['c'] or not c.matches(('PartialEq::ne', 'PartialEq::eq')) or len(c.t['a']) != 2:
+            continue
+        ds = [s_.describe(s_.operand(a)) for a in c.t['a']]
+        if any('magic_number' in d for d in ds):
+            cmpc.append(c)
+    cmpc.sort(key=lambda c: c.line)
+    ctx.check(len(cmpc) >= 2, 'floor|%s|magic-compares' % f.path, 'the magic number read from the storage is compared on the open path and before initialisation (found %d comparisons)' % len(cmpc), f, f.line)
+    if len(cmpc) >= 2 and init and empty_edges:
+        c2 = cmpc[-1]
+        c1 = cmpc[0]
+
+        def edges_of(c, want_equal):
+            """edges on which the comparison call c came out equal / different (read off the switch on its result)"""
+            out = set()
+            ne = c.matches('PartialEq::ne')
+            for bb in range(f.nb):
+                t = f.blocks[bb]['t']
+                if t['k'] != 'sw':
+                    continue
+                term = s_.operand(t['o'])
+                neg = False
+                while term[0] == 'not':
+                    term = term[1]
+                    neg = not neg
+                if term != ('call', c.bb):
+                    continue
+                for si, (tgt, lab) in enumerate(f.succ(bb)):
+                    result_true = (lab != '0') != neg
+                    equal = (not result_true) if ne else result_true
+                    if equal == want_equal:
+                        out.add((bb, si))
+            return out
+        # initialisation hangs on C2 saying "differs"
+        d2 = edges_of(c2, False)
+        r = core.reach(f, cut_edges=d2)
+        ok2 = bool(d2) and not any(p.bb in r['term'] for p in init)
+        ctx._ob(ok2, ctx.sample('guard', f, c2.line, 'a fresh header is built only when the stored magic number differs'))
+        if not ok2:
+            ctx.violate('guard|%s|init-without-magic-test' % f.path, 'DatabaseHeader::new is reachable without the stored magic number having been found different', f, c2.line)
+        # on the non-empty arm the only way on is through an earlier comparison saying "equal"
+        nonempty_targets = []
+        for (bb0, _si0) in empty_edges:
+            for si, (tgt, lab) in enumerate(f.succ(bb0)):
+                if (bb0, si) not in empty_edges:
+                    nonempty_targets.append(tgt)
+        eq_edges = set()
+        for c in cmpc[:-1]:
+            eq_edges |= edges_of(c, True)
+        bad = False
+        for tgt in nonempty_targets:
+            r = core.reach(f, start=(tgt, 0), cut_edges=eq_edges, cut_blocks=core.error_blocks(f))
+            if c2.bb in r['term'] or any(p.bb in r['term'] for p in init):
+                bad = True
+        ctx._ob(not bad and bool(eq_edges), ctx.sample('guard', f, c1.line, 'a non-empty storage gets past the open check only with the right magic number'))
+        if bad or not eq_edges:
+            ctx.violate('guard|%s|init-nonempty' % f.path, 'a storage that is not empty can reach the initialisation decision without its magic number having matched: an existing file could be re-initialised by a creating open', f, c1.line)
+
+
+def durability_guard_rules(ctx):
+    ctx.set_rule('C07.R12', 'a transaction that created or deleted a persistent savepoint cannot be made non-durable: the guard looks at both lists')
+    f = ctx.fn('SavepointTransactionState::has_created_or_deleted')
+    if f is not None:
+        s_ = core.sym(f)
+        seen = set()
+        for c in f.calls:
+            if (c.declared or c.callee or '').split('::')[-1] == 'is_empty' and c.t['a']:
+                d = s_.describe(s_.operand(c.t['a'][0]))
+                for fld in ('created_persistent', 'deleted_persistent'):
+                    if d.endswith(fld):
+                        seen.add(fld)
+        ok_ = seen == {'created_persistent', 'deleted_persistent'}
+        ctx._ob(ok_, ctx.sample('shape', f, f.line, 'both created_persistent and deleted_persistent are consulted'))
+        if not ok_:
+            ctx.violate('shape|%s|both-lists' % f.path, 'has_created_or_deleted consults only %s: a transaction that deleted (or created) a persistent savepoint could be committed non-durably, leaving the durable state listing a savepoint whose pages are released' % sorted(seen), f, f.line)
+    f = ctx.fn(WT + '::set_durability')
+    if f is not None:
+        hc = ctx.sites(f, 'SavepointTransactionState::has_created_or_deleted', exact=1)
+        st = [p for p, _ in _field_store_points(f, 'durability')]
+        ctx.check(len(st) >= 1, 'floor|%s|store' % f.path, 'set_durability stores the durability', f, f.line)
+        if hc and st:
+            ctx.order(f, hc, st, 'the savepoint guard is evaluated before the durability is changed')
+            ctx.held(f, hc, 'self.savepoint_state')
